@@ -501,7 +501,10 @@ func c20Typestate(c *Ctx, p *Prog) {
 			okDom := instrDominates(create, def)
 			// no path from the creation to a return avoids the defer (returns on the creation's own error edge excepted)
 			okRet := true
-			if def.Block() != create.Block() {
+			if instrDominates(def, create) && !inAnyLoop(fn, def.Block()) {
+				// registered before the upload exists (guarded by the variable being set): in force at every later return
+				okDom = true
+			} else if def.Block() != create.Block() {
 				reach := reachFrom(create.Block(), map[*ssa.BasicBlock]bool{def.Block(): true})
 				for b := range reach {
 					if _, isRet := b.Instrs[len(b.Instrs)-1].(*ssa.Return); isRet && b != create.Block() && !errEdgeOf(create, b) {
@@ -1557,4 +1560,13 @@ func edgeMayBe(b *ssa.BasicBlock, si int, tracked ssa.Value, want string) bool {
 		return k == want
 	}
 	return k != want
+}
+
+func inAnyLoop(fn *ssa.Function, b *ssa.BasicBlock) bool {
+	for _, lp := range naturalLoops(fn) {
+		if lp.Blocks[b] {
+			return true
+		}
+	}
+	return false
 }
